@@ -476,9 +476,9 @@ def skipComment : Str → Str
 def maxNest : Nat := 128
 
 /-- the `while (1)` loop of hawk_sed_comp.  `level` = tmp.grp.level, `labs` = tmp.labs.
-    The test `s'.length < s.length` is a progress guard that makes the recursion well-founded; it never
-    fires (every command consumes its command character): `PErr.internal` is unreachable in practice and the
-    correspondence check would show it. -/
+    The tests `s'.length ≤ r.length` / `(skipComment r).length ≤ r.length` are progress guards that make the recursion
+    well-founded; they never fire and `PErr.internal` is never reported: `compLoop_no_internal`
+    (HawkModel/SedParseNoInternal.lean), theorem `compiler_never_internal` in Props/C18. -/
 def compLoop (tr : Traits) (s : Str) (level : Nat) (labs : List Str) : Except PErr (List PCmd) :=
   match s with
   | [] => if level ≠ 0 then .error .EGRNBA else .ok []
